@@ -414,7 +414,7 @@ func (w *World) probes() []probe {
 }
 
 // matrix runs one statement of every privilege class per object as every user. An allowed probe is
-// undone as root so the state stays the one the specification expects; after every probe the data
+// undone by the administrator so the state stays the one the specification expects; after every probe the data
 // projection must be the baseline again (for a denied probe: "no effect").
 func (w *World) matrix(classes map[string]bool) []Row {
 	base := w.F.Fingerprint()
